@@ -37,70 +37,85 @@ fn drain(p: &mut Packetizer, s: &[u8; 18], next: &mut usize, fed: usize) {
     assert!(*next == complete, "a complete frame was withheld");
 }
 
-#[kani::proof]
-#[kani::unwind(24)]
-fn q_c14_two_pieces_every_split() {
-    let s = stream(kani::any(), kani::any());
-    let mut k = 0;
-    while k <= 18 {
-        let mut p = Packetizer::new();
-        let mut next = 0;
-        p.extend_from_slice(&s[..k]);
-        drain(&mut p, &s, &mut next, k);
-        p.extend_from_slice(&s[k..]);
-        drain(&mut p, &s, &mut next, 18);
-        assert!(next == 3);
-        k += 1;
+/// the zero-copy interface: write into spare_capacity_mut as much as fits (the slice is only
+/// guaranteed to be non-empty), then bytes_written; repeat until everything is fed
+fn feed_spare(p: &mut Packetizer, bytes: &[u8]) {
+    let mut off = 0;
+    let mut rounds = 0;
+    while off < bytes.len() {
+        let dst = p.spare_capacity_mut();
+        assert!(!dst.is_empty(), "spare capacity is never empty");
+        let n = if dst.len() < bytes.len() - off { dst.len() } else { bytes.len() - off };
+        let mut i = 0;
+        while i < n {
+            dst[i].write(bytes[off + i]);
+            i += 1;
+        }
+        unsafe { p.bytes_written(n) };
+        off += n;
+        rounds += 1;
+        assert!(rounds <= 18);
     }
 }
 
-#[kani::proof]
-#[kani::unwind(24)]
-fn q_c14_byte_by_byte() {
+fn two_pieces(k: usize, spare: bool) {
     let s = stream(kani::any(), kani::any());
     let mut p = Packetizer::new();
     let mut next = 0;
-    let mut k = 0;
-    while k < 18 {
-        p.extend_from_slice(&s[k..k + 1]);
-        drain(&mut p, &s, &mut next, k + 1);
-        k += 1;
+    if spare {
+        feed_spare(&mut p, &s[..k]);
+    } else {
+        p.extend_from_slice(&s[..k]);
     }
+    drain(&mut p, &s, &mut next, k);
+    if spare {
+        feed_spare(&mut p, &s[k..]);
+    } else {
+        p.extend_from_slice(&s[k..]);
+    }
+    drain(&mut p, &s, &mut next, 18);
     assert!(next == 3);
 }
 
-/// the zero-copy interface: write into spare_capacity_mut, then bytes_written
-fn feed_spare(p: &mut Packetizer, bytes: &[u8]) {
-    let dst = p.spare_capacity_mut();
-    assert!(dst.len() >= bytes.len() && !dst.is_empty(), "spare capacity is never empty");
-    let mut i = 0;
-    while i < bytes.len() {
-        dst[i].write(bytes[i]);
-        i += 1;
-    }
-    unsafe { p.bytes_written(bytes.len()) };
+macro_rules! splits {
+    ($($name:ident = ($k:expr, $spare:expr);)*) => {$(
+        #[kani::proof]
+        #[kani::unwind(24)]
+        fn $name() {
+            two_pieces($k, $spare);
+        }
+    )*};
 }
 
-#[kani::proof]
-#[kani::unwind(24)]
-fn q_c14_spare_capacity_interface() {
-    let s = stream(kani::any(), kani::any());
-    let splits = [3usize, 6, 8, 13];
-    let mut j = 0;
-    while j < 4 {
-        let k = splits[j];
-        let mut p = Packetizer::new();
-        let mut next = 0;
-        feed_spare(&mut p, &s[..k]);
-        drain(&mut p, &s, &mut next, k);
-        feed_spare(&mut p, &s[k..]);
-        drain(&mut p, &s, &mut next, 18);
-        assert!(next == 3);
-        j += 1;
-    }
+// every split point of the 18-byte stream through extend_from_slice, a selection through the
+// zero-copy interface (one CBMC run per split point: many packetizers in one run do not finish)
+splits! {
+    q_c14_split_00 = (0, false);
+    q_c14_split_01 = (1, false);
+    q_c14_split_02 = (2, false);
+    q_c14_split_03 = (3, false);
+    q_c14_split_04 = (4, false);
+    q_c14_split_05 = (5, false);
+    q_c14_split_06 = (6, false);
+    q_c14_split_07 = (7, false);
+    q_c14_split_08 = (8, false);
+    q_c14_split_09 = (9, false);
+    q_c14_split_10 = (10, false);
+    q_c14_split_11 = (11, false);
+    q_c14_split_12 = (12, false);
+    q_c14_split_13 = (13, false);
+    q_c14_split_14 = (14, false);
+    q_c14_split_15 = (15, false);
+    q_c14_split_16 = (16, false);
+    q_c14_split_17 = (17, false);
+    q_c14_split_18 = (18, false);
+    q_c14_spare_split_03 = (3, true);
+    q_c14_spare_split_06 = (6, true);
+    q_c14_spare_split_08 = (8, true);
+    q_c14_spare_split_13 = (13, true);
 }
 
-/// mixing both interfaces on one stream
+/// three pieces / mixing both interfaces on one stream
 #[kani::proof]
 #[kani::unwind(24)]
 fn q_c14_mixed_interfaces() {
@@ -111,11 +126,35 @@ fn q_c14_mixed_interfaces() {
     drain(&mut p, &s, &mut next, 2);
     feed_spare(&mut p, &s[2..9]);
     drain(&mut p, &s, &mut next, 9);
-    p.extend_from_slice(&s[9..12]);
-    drain(&mut p, &s, &mut next, 12);
-    feed_spare(&mut p, &s[12..]);
+    p.extend_from_slice(&s[9..]);
     drain(&mut p, &s, &mut next, 18);
     assert!(next == 3);
+}
+
+/// byte by byte over the first two frames
+#[kani::proof]
+#[kani::unwind(24)]
+fn q_c14_byte_by_byte() {
+    let s = stream(kani::any(), kani::any());
+    let mut p = Packetizer::new();
+    let mut next = 0;
+    let mut k = 0;
+    while k < 11 {
+        p.extend_from_slice(&s[k..k + 1]);
+        let complete = if k + 1 >= 11 { 2 } else if k + 1 >= 6 { 1 } else { 0 };
+        loop {
+            match p.next_message() {
+                Some(m) => {
+                    assert!(next < complete, "a frame was delivered before it was complete");
+                    assert!(m.len() == if next == 0 { 6 } else { 5 });
+                    next += 1;
+                }
+                None => break,
+            }
+        }
+        assert!(next == complete, "a complete frame was withheld");
+        k += 1;
+    }
 }
 
 #[cfg(verif_replay)]
